@@ -24,8 +24,8 @@ def run(ctx: Ctx):
     from .c03 import _branches as _br12
 
     dep = sm.func("ode.py", "ODE.dependents")
-    dv = util.value_of(ctx, dep)
-    table = [x for c, x in _br12(dv) if x[0] != "raise"]
+    dv = _av.distribute_ifs(util.value_of(ctx, dep))  # conditional raises (value is None) lifted to the top
+    table = [_av._unwrap_seq(x) for c, x in _br12(dv) if x[0] != "raise"]
     REF_DEP = ("comp", 1, ("sym", "self.components"), (("spread", ("comp", 2, ("attr", ("bv", 1), "assignments"), (("spread", ("comp", 3, ("attr", ("attr", ("bv", 2), "value"), "dependencies"), (("kadd", ("bv", 3), ("attr", ("bv", 2), "name")),), ())),), ())),), ())
     if len(table) != 1:
         ctx.undecided("R12.a", dep.key("record"), f"what ODE.dependents returns is not understood ({_av.show(dv)[:100]})", dep.where())
